@@ -459,6 +459,90 @@ VOP(nss_msg)
 	Out("nss_msg items=" + (items.empty() ? std::string(".") : items) + " msgs=" + (msgs.empty() ? std::string(".") : msgs) + " end=" + end);
 }
 
+// ns_wbig n=<len> via=buf|tls max=<n>: the REAL writers on a payload of n bytes made here (byte i = (i*131+7)&255), read back by the
+// REAL readers.  via=buf: WriteStringToStream(std::ostream&) and WriteStringToStream(Stream::Ptr) (must agree), then the buffered
+// reader over a StdioStream up to the end.  via=tls: both ends are AsioTlsStreams on a socketpair, the coroutine writer
+// (+ async_flush, as JsonRpcConnection::WriteOutgoingMessages does) against the coroutine reader.
+// Printed: the header the writer produced, the total number of bytes, the last byte, whether exactly the payload came back.
+VOP(ns_wbig)
+{
+	size_t n = (size_t)a.num("n", 0);
+	long max = a.num("max", -1);
+	std::string via = a.str("via", "buf");
+	std::string payload(n, '\0');
+	for (size_t i = 0; i < n; i++) payload[i] = (char)((i * 131 + 7) & 255);
+	String str(payload);
+	std::ostringstream os;
+	NetString::WriteStringToStream(os, str);
+	std::string wire = os.str();
+	size_t colon = wire.find(':');
+	std::string hdr = wire.substr(0, colon == std::string::npos ? 0 : colon + 1);
+	int back = 0, err = 0, same = 1;
+	if (via == "buf") {
+		FIFO::Ptr fifo = new FIFO();
+		size_t ret = NetString::WriteStringToStream(fifo, str);
+		std::string viaFifo(fifo->GetAvailableBytes(), '\0');
+		if (!viaFifo.empty()) fifo->Read(&viaFifo[0], viaFifo.size());
+		if (viaFifo != wire || ret != wire.size()) same = 0;
+		std::stringstream ss(wire);
+		Stream::Ptr stream = new StdioStream(&ss, false);
+		StreamReadContext ctx;
+		int items = 0;
+		bool ok = true, eof = false;
+		try {
+			String message;
+			for (size_t calls = 0; calls < wire.size() / 1024 + 64; calls++) {
+				StreamReadStatus srs = NetString::ReadStringFromStream(stream, &message, ctx, false, max);
+				if (srs == StatusEof) { eof = true; break; }
+				if (srs != StatusNewItem) continue;
+				items++;
+				if (message.GetData() != payload) ok = false;
+			}
+		} catch (const std::exception&) {
+			err = 1;
+		}
+		back = (!err && eof && items == 1 && ok && ctx.Size == 0) ? 1 : 0;
+	} else {
+		int sv[2];
+		if (socketpair(AF_UNIX, SOCK_STREAM, 0, sv) != 0) throw std::runtime_error("socketpair");
+		boost::asio::io_context io;
+		boost::asio::ssl::context cctx(boost::asio::ssl::context::tls_client);
+		auto server = Shared<AsioTlsStream>::Make(io, ServerCtx());
+		auto client = Shared<AsioTlsStream>::Make(io, cctx);
+		server->lowest_layer().assign(boost::asio::ip::tcp::v4(), sv[0]);
+		client->lowest_layer().assign(boost::asio::ip::tcp::v4(), sv[1]);
+		size_t wrote = 0;
+		IoEngine::SpawnCoroutine(io, [&](boost::asio::yield_context yc) {
+			try {
+				server->next_layer().async_handshake(boost::asio::ssl::stream_base::server, yc);
+				String got = NetString::ReadStringFromStream(server, yc, (ssize_t)max);
+				back = got.GetData() == payload ? 1 : 0;
+			} catch (const std::invalid_argument&) {
+				err = 1;
+			} catch (const std::exception&) {
+				err = 2;
+			}
+			boost::system::error_code ec;
+			server->lowest_layer().close(ec);
+		});
+		IoEngine::SpawnCoroutine(io, [&](boost::asio::yield_context yc) {
+			try {
+				client->next_layer().async_handshake(boost::asio::ssl::stream_base::client, yc);
+				wrote = NetString::WriteStringToStream(client, str, yc);
+				client->async_flush(yc);
+			} catch (const std::exception&) {
+				// the reader may have refused the frame and closed before everything was written
+			}
+		});
+		io.run();
+		boost::system::error_code ec;
+		client->lowest_layer().close(ec);
+		if (wrote != 0 && wrote != wire.size()) same = 0;
+	}
+	Out("ns_wbig hdr=" + HexEnc(hdr) + " total=" + std::to_string(wire.size()) + " last=" + HexEnc(wire.substr(wire.size() - 1)) +
+		" same=" + std::to_string(same) + " back=" + std::to_string(back) + " err=" + std::to_string(err));
+}
+
 // ---------------------------------------------------------------------------------------------------------
 // JSON: script syntax of values  n | t | f | i<dec> | d<16 hex digits of the binary64> | "<hex>" | [v,v] | {<hexkey>:v,...}
 struct VParser {
@@ -533,7 +617,7 @@ VOP(js_rt)
 	Value v = p.Parse();
 	try {
 		String enc = JsonEncode(v);
-		Value back = JsonDecode(enc);
+		Value back = a.str("dec", "net") == "trusted" ? JsonDecodeTrusted(enc) : JsonDecode(enc);
 		std::string c;
 		Canon(back, c, 0);
 		Out("js_rt enc=" + (a.num("cmp", 1) ? HexEnc(enc.GetData()) : std::string("~")) + " dec=" + c);
@@ -542,12 +626,40 @@ VOP(js_rt)
 	}
 }
 
+// js_long reps=<k> where=val|key dec=net|trusted <hexpattern>: a very long string (the pattern k times) built here, as a value or as
+// a dictionary key, through the real JsonEncode and back through the real decoder: length of the encoding, its first bytes,
+// and whether the decoded value equals the original
+VOP(js_long)
+{
+	std::string pat = HexDec(a.pos.at(0));
+	long reps = a.num("reps", 1);
+	std::string body;
+	body.reserve(pat.size() * reps);
+	for (long i = 0; i < reps; i++) body += pat;
+	bool key = a.str("where", "val") == "key";
+	Value v;
+	if (key) { Dictionary::Ptr d = new Dictionary(); d->Set(String(body), Empty); v = d; } else v = String(body);
+	try {
+		String enc = JsonEncode(v);
+		Value back = a.str("dec", "net") == "trusted" ? JsonDecodeTrusted(enc) : JsonDecode(enc);
+		bool same = false;
+		if (key) {
+			if (back.IsObjectType<Dictionary>()) { Dictionary::Ptr d = back; same = d->GetLength() == 1 && d->Contains(String(body)) && d->Get(String(body)).IsEmpty(); }
+		} else {
+			same = back.IsString() && back.Get<String>().GetData() == body;
+		}
+		Out("js_long len=" + std::to_string(enc.GetLength()) + " head=" + HexEnc(enc.GetData().substr(0, 12)) + " same=" + std::to_string(same ? 1 : 0));
+	} catch (const std::exception&) {
+		Out("js_long err");
+	}
+}
+
 // js_dec <hex>
 VOP(js_dec)
 {
 	std::string in = HexDec(a.pos.at(0));
 	try {
-		Value v = JsonDecode(String(in));
+		Value v = a.str("dec", "net") == "trusted" ? JsonDecodeTrusted(String(in)) : JsonDecode(String(in));
 		std::string c;
 		Canon(v, c, 0);
 		Out("js_dec ok " + c);
@@ -584,7 +696,7 @@ VOP(js_deep)
 	std::string res;
 	auto run = [&]() {
 		try {
-			Value v = JsonDecode(String(doc));
+			Value v = a.str("dec", "net") == "trusted" ? JsonDecodeTrusted(String(doc)) : JsonDecode(String(doc));
 			// depth of what was built, iteratively
 			long depth = 0;
 			Value cur = v;
